@@ -41,6 +41,7 @@ def run(m: Model, r: Report, tier: str) -> None:
                  "read and is followed by the empty-read -> BrokenPipeError guard inside the try that converts connection errors", floor=5)
     r.rule("R6", "the terminal error is a MissingResponse; on connection errors its __cause__ is set and a reconnect happens iff retries remain", floor=5)
     r.rule("R7", "per-request overrides resolve as `config.x if config.x is not None else self.x`, and an unset override is None", floor=4)
+    r.rule("R9", "the negative responses that steer the retry / pending logic are exactly 3 bytes long; anything else starting with 0x7F is malformed", floor=1)
     r.rule("R8", "a reply is accepted or refused against the re-parsed request (raw requests of known services are matched like typed ones)", floor=2)
 
     fn = m.require_function(f"{CLIENT}.UDSClient.request_unsafe")
@@ -191,6 +192,18 @@ def run(m: Model, r: Report, tier: str) -> None:
                 f"{rc_cls.qualname}.{attr}#unset-default",
                 f"UDSRequestConfig.{attr} defaults to `{ast.unparse(dflt) if dflt is not None else '<no default>'}`: with the `is not None` override test "
                 f"every request that does not set {attr} then ignores the client's {attr}", loc=rc_cls.loc)
+    # the per-request config object itself: the caller's object when one is given, a fresh (all unset) one otherwise
+    from sa import miniterp as _mt4
+    cpar = fn.params()[2] if len(fn.params()) > 2 else "config"
+    cfg_assign = [x for x in walk_no_nested(fn.node) if isinstance(x, ast.Assign) and isinstance(x.targets[0], ast.Name) and x.targets[0].id == cpar]
+    if len(cfg_assign) == 1:
+        orc = lambda call, env: "FRESH" if ast.unparse(call.func).endswith("UDSRequestConfig") and not call.args and not call.keywords else NotImplemented
+        got_ = [_mt4.eval_expr(cfg_assign[0].value, {cpar: v_}, orc) for v_ in (None, "GIVEN")]
+        r.check(got_ == ["FRESH", "GIVEN"], "R7", f"{fn.qualname}#config-default", f"`{ast.unparse(cfg_assign[0])}` yields {got_} for (no config, a given config): the caller's "
+                "overrides (max_retry, timeout) must be used when given, and an all-unset config otherwise", loc=fn.loc)
+    else:
+        used_raw = [n for n in ast.walk(fn.node) if isinstance(n, ast.Attribute) and isinstance(n.value, ast.Name) and n.value.id == cpar]
+        r.check(len(cfg_assign) == 0 and not used_raw, "R7", f"{fn.qualname}#config-default", f"{len(cfg_assign)} assignments to {cpar}; expected the single None-default", loc=fn.loc)
     init = m.require_function(f"{CLIENT}.UDSClient.__init__")
     ann = init.param_annotations().get("timeout")
     r.check(ann is not None and ast.unparse(ann) == "float", "R3", f"{init.qualname}#timeout-type",
@@ -335,6 +348,11 @@ def run(m: Model, r: Report, tier: str) -> None:
     # the reconnect between two attempts must not fail because the *old* connection is dead
     from sa.uds_rules import reconnect_unsafe_rule
     reconnect_unsafe_rule(m, r, "R6")
+    # busy / pending / final negative answers are recognised on typed negative responses only, which are exactly three bytes long (ISO 14229-1)
+    nr = m.require_class("gallia.services.uds.core.service.NegativeResponse")
+    mn_, mx_ = m.class_kw(nr, "minimal_length"), m.class_kw(nr, "maximal_length")
+    r.check(mn_ == 3 and mx_ == 3, "R9", f"{nr.qualname}#length", f"NegativeResponse accepts lengths {mn_}..{mx_}: a malformed frame such as 7F 22 21 00 is then taken as busyRepeatRequest "
+            "(extra transmission) or 7F 22 78 00 as responsePending (longer wait) instead of raising an illegal-response error", loc=nr.loc)
     ru = m.require_function(f"{CLIENT}.UDSClient.reconnect_unsafe")
     r.check(any(isinstance(n, ast.Call) and ast.unparse(n.func) == "self.transport.reconnect" for n in ast.walk(ru.node)), "R6",
             f"{ru.qualname}#delegates", "reconnect_unsafe must use the transport's reconnect()", loc=ru.loc)
